@@ -1287,6 +1287,25 @@ def callshape_program(rng):
             return ["bin", r.choice(["ls", "eq", "ge"]), pair(), pair(), False]
         raise ValueError(k)
 
+    if r.chance(1, 5):
+        # a spilled LEFT operand next to a call as RIGHT operand, in a function with no locals and no other call (frame of two
+        # words): the temporary and the outgoing area of the call are neighbours
+        op1, op2 = r.choice(["plus", "minus"]), r.choice(["plus", "minus", "eq", "ls"])
+        el = lambda: ["sub", "arr", lit(r.below(4))]
+        left = r.choice([["bin", op1, el(), el(), False], ["bin", op1, ["bin", "minus", el(), el(), False], el(), False],
+                         ["bin", op1, v(), el(), False],
+                         ["bin", op1, v(), ["bin", "minus", v(), v(), False], False],
+                         ["bin", op1, ["bin", "minus", v(), v(), False], ["bin", "plus", v(), v(), False], False],
+                         ["bin", op1, v(), ["bin", "minus", v(), ["bin", "plus", v(), v(), False], False], False],
+                         ["bin", op1, ["bin", "minus", v(), v(), False], v(), False]])
+        zarg = r.chance(1, 3)
+        procs = [{"kind": "func", "name": "tz", "formals": [["val", "k"]] if zarg else [], "locals": [], "body": ["ret", lit(1 + r.below(9))]},
+                 {"kind": "func", "name": "tf", "formals": [], "locals": [],
+                  "body": ["ret", ["bin", op2, left, ["call", "tz", [v()] if zarg else []], False]]}]
+        body = [["assign", g, lit(x)] for g, x in zip(gl, vals)] + [["assignsub", "arr", lit(k), lit(3 + 7 * k)] for k in range(4)]
+        body += [["syscall", 1, [["bin", "plus", ["call", "tf", []], num(40), False], num(0)]], ["syscall", 0, [["call", "tf", []]]]]
+        procs.append({"kind": "proc", "name": "main", "formals": [], "locals": [], "body": ["seq", body]})
+        return {"globals": [["var", g] for g in gl] + [["array", "arr", lit(4)]], "procs": procs}, Counter({"stream:callshape": 1, "callshape:tightframe": 1})
     kinds = ["const", "var", "temp1", "temp2", "temp2", "temp3", "right", "call", "calltemp", "rel"]
     n = 1 + r.below(5)
     args = [shape(r.choice(kinds)) for _ in range(n)]
@@ -1352,13 +1371,16 @@ def flow_program(rng):
             return ["skip"]
         if kind == "put":
             return put(97 + r.below(26))
+        if kind == "assign":
+            return ["assign", "n", ["bin", "plus", ["name", "x"], num(1), False]]
         return ["seq", [put(65 + r.below(26)), ["stop"] if kind == "putstop" else ["skip"]]]
 
     for i in range(nguard):
         name = "g%d" % i
         cond = ["bin", r.choice(["eq", "ne", "ls", "ge"]), ["name", "x"], lit(r.choice([0, 1, 5, 113])), False]
         a, b = r.choice([("skip", "stop"), ("stop", "skip"), ("skip", "exit"), ("put", "stop"), ("putstop", "skip"),
-                         ("skip", "putstop"), ("stop", "put"), ("exit", "skip")])
+                         ("skip", "putstop"), ("stop", "put"), ("exit", "skip"), ("assign", "skip"), ("skip", "assign"),
+                         ("assign", "skip"), ("assign", "stop")])
         tail = ["if", cond, leaf(a), leaf(b)]
         k = r.below(5)
         if k == 0:      # nested: the completing path is two levels down
